@@ -24,7 +24,7 @@ RULE = (
 )
 ASSUMPTIONS = ['all files of one invocation store a given field with the same dtype (the format has a single width per field)', 'zlib-based stand-in for python-blosc for blsc inputs']
 
-DTS = ['i2', 'i4', 'i8', 'u8', 'f4', 'f8']
+DTS = ['i2', 'i4', 'i8', 'u8', 'f4', 'f8', 'c8', 'c16', 'S5', 'u1']  # incl. types whose alignment differs from their size
 SHAPES = [(), (3,), (2, 2)]
 
 
@@ -46,7 +46,7 @@ class RecordingPipe(io.BytesIO):
         self.closed_called = True  # keep the buffer readable
 
 
-def make_files(rng, d, nfiles, fields_spec, comp, tag, sizes=None):
+def make_files(rng, d, nfiles, fields_spec, comp, tag, sizes=None, compressible=False):
     """fields_spec: name -> (dtype, tail shape).  Returns file names and arrays[file][field]."""
     fns, arrs = [], []
     for i in range(nfiles):
@@ -55,10 +55,22 @@ def make_files(rng, d, nfiles, fields_spec, comp, tag, sizes=None):
             n = int(rng.choice([0, 1, 7, 300]))
             if sizes is not None:
                 n = sizes[i % len(sizes)]
-            a = rng.integers(-1000, 1000, (n,) + tail).astype(dt) if dt[0] != 'u' else rng.integers(0, 1 << 40, (n,) + tail).astype(dt)
+            if dt == 'S5':
+                a = rng.integers(0, 100000, (n,) + tail).astype('S5')
+            elif dt[0] == 'c':
+                a = (rng.integers(-1000, 1000, (n,) + tail) + 1j * rng.integers(-1000, 1000, (n,) + tail)).astype(dt)
+            elif dt == 'u1':
+                a = rng.integers(0, 256, (n,) + tail).astype(dt)
+            else:
+                a = rng.integers(-1000, 1000, (n,) + tail).astype(dt) if dt[0] != 'u' else rng.integers(0, 1 << 40, (n,) + tail).astype(dt)
+            if compressible and n > 1000:
+                a[...] = a.reshape(-1)[0]  # a constant column: every compressed frame is tiny
             data[name] = a
         fn = os.path.join(d, f'{tag}_{i}.asdf')
-        write_asdf(fn, dict(header=dict(x=1), data=data), comp)
+        # blsc columns are stored as a sequence of frames: also with a small block size, so that even short columns consist of several
+        # frames and several of them arrive in a single read of the file layer
+        ckw = dict(compression_block_size=[1024, 4096, 1 << 22][(i + len(fields_spec)) % 3]) if comp == 'blsc' else None
+        write_asdf(fn, dict(header=dict(x=1), data=data), comp, compression_kwargs=ckw)
         fns.append(fn)
         arrs.append(data)
     return fns, arrs
@@ -126,7 +138,7 @@ def check(run):
         for k in range(ninv):
             nfiles = int(rng.integers(1, 6))
             nf = int(rng.integers(1, 7))
-            spec = {f'f{j}': (DTS[int(rng.integers(0, 6))], SHAPES[int(rng.integers(0, 3))]) for j in range(nf)}
+            spec = {f'f{j}': (DTS[int(rng.integers(0, len(DTS)))], SHAPES[int(rng.integers(0, 3))]) for j in range(nf)}
             comp = [None, 'zlib', 'blsc'][k % 3]
             # multi-megabyte fields whose files differ in size by orders of magnitude (a large compressed file followed by tiny ones, or the
             # reverse): whatever reads or decompresses them, the payloads must still come out in argument order
@@ -139,7 +151,8 @@ def check(run):
                 sizes = [[600000, 3, 50], [5, 600000, 2], [300000, 300000, 300000], [262144, 131072, 7], [1, 524288, 1048576]][(k // 10) % 5]  # incl. arrays whose byte size is an exact multiple of 2^20
                 comp = ['zlib', 'blsc', None][(k // 10) % 3] if k % 20 == 4 else comp
                 run.count('multi_megabyte_invocations')
-            fns, arrs = make_files(rng, d, nfiles, spec, comp, f'c{k}', sizes=sizes)
+            # (a third of the multi-megabyte cases hold constant columns: many small compressed frames per read chunk)
+            fns, arrs = make_files(rng, d, nfiles, spec, comp, f'c{k}', sizes=sizes, compressible=bool(big and (k // 10) % 3 == 1))
             names = list(spec)
             if k % 6 == 3 and nfiles >= 1:
                 # the same file may be named more than once: it is concatenated each time, in argument order
@@ -193,7 +206,7 @@ def check(run):
                 alt = []
                 for j, a in enumerate(arrs):
                     fn2 = os.path.join(d, f'alt{k}_{j}.asdf')
-                    decoy = {n: (np.asarray(v)[::-1].copy() + 1 if np.asarray(v).size else np.asarray(v)) for n, v in a.items()}
+                    decoy = {n: np.roll(np.asarray(v)[::-1], 1, axis=0).copy() for n, v in a.items()}  # same names, other contents
                     _asdf.AsdfFile(dict(hdr=dict(x=1), header=dict(x=2), halos={n: np.ascontiguousarray(v) for n, v in a.items()}, data=decoy)).write_to(fn2)
                     alt.append(fn2)
                 pipe = RecordingPipe()
@@ -207,7 +220,7 @@ def check(run):
                     compare(run, pipe.getvalue(), arrs, fields, dict(desc, data_key='halos'))
             # the same paths piped again after the files were rewritten with other row counts / dtypes (nothing may be remembered per path)
             if k % 9 == 1 and not big:
-                spec2 = {n: (DTS[(DTS.index(spec[n][0]) + 1 + j) % 6], spec[n][1]) for j, n in enumerate(spec)}
+                spec2 = {n: (DTS[(DTS.index(spec[n][0]) + 1 + j) % len(DTS)], spec[n][1]) for j, n in enumerate(spec)}
                 fns2, arrs2 = make_files(rng, d, len(fns), spec2, comp, f'c{k}')  # same tag -> same file names
                 if fns2 == list(fns):
                     pipe = RecordingPipe()
